@@ -17,7 +17,8 @@
  *   already non-zero (store_completed sets both in one critical section).
  * Block writer contract: any result, any location.
  *
- * Scenario bound: <= NB blocks inside the pool, all plain data blocks
+ * Scenario bound: NPOOL <= NB blocks inside the pool (case parameter, like
+ * the index of the call at which a stopped pool gives up), all plain data blocks
  * (no IS_FRAGMENT / FRAGMENT_BLOCK, no inode attached; the flag word of each
  * block is a concrete case parameter), io_queue initially
  * empty, no fragment table.
@@ -32,6 +33,13 @@
 #define NB 2
 #endif
 #define BLK_DATA 8
+#ifndef NPOOL
+#define NPOOL NB	/* blocks inside the pool: concrete per case */
+#endif
+#ifndef GIVEUP_AT
+#define GIVEUP_AT (-1)	/* index of the dequeue() call that returns NULL with
+			   blocks left (needs status != 0); -1: none */
+#endif
 
 typedef struct {
 	sqfs_block_t b;
@@ -53,6 +61,7 @@ static c09_blk_t g_cur, g_frag;		/* blk_current / frag_block stand-ins */
 static size_t g_inpool, g_next;
 static int g_pstatus;			/* pool status now */
 static int g_null_returned;		/* dequeue() returned NULL */
+static unsigned g_dequeue_calls;
 static int g_handed_while_failed;	/* a block came back with status != 0 */
 static unsigned g_writes;
 static sqfs_u32 g_write_seq[4];		/* io_seq_num of the k-th write */
@@ -75,8 +84,15 @@ static void *stub_dequeue(thread_pool_t *pool)
 
 	VERIF_ASSERT(pool == &g_tp, "C09.bp.pool_pre");
 	c09_worker_may_fail();
-	if (g_inpool == 0 ||
-	    (g_pstatus != 0 && verif_nd_bool("stopped_pool_gives_up"))) {
+	g_dequeue_calls += 1;
+	if (g_inpool == 0) {
+		g_null_returned = 1;
+		return NULL;
+	}
+	/* which call (if any) gives up is a case parameter, so that the
+	 * returned pointer is concrete on every path */
+	if ((int)g_dequeue_calls - 1 == GIVEUP_AT) {
+		VERIF_ASSUME(g_pstatus != 0);
 		g_null_returned = 1;
 		return NULL;
 	}
